@@ -29,7 +29,8 @@ RealGetPrice(feed, key) == Last(Rounds(feed, key))
 (* query.rs::query_get_previous_price; ~ok = "Not enough history" *)
 RealGetPreviousPrice(feed, key, n) ==
   LET rs == Rounds(feed, key)
-  IN IF n > Last(rs).id THEN [ok |-> FALSE, r |-> Last(rs)] ELSE [ok |-> TRUE, r |-> rs[Len(rs) - n]]
+  \* fix F18: round ids start at 1; round 0 is a placeholder
+  IN IF n >= Last(rs).id THEN [ok |-> FALSE, r |-> Last(rs)] ELSE [ok |-> TRUE, r |-> rs[Len(rs) - n]]
 
 (* query.rs::query_get_twap_price *)
 RECURSIVE RealTwapLoop(_, _, _, _, _, _, _)
